@@ -151,7 +151,8 @@ Inductive attrval :=
 | AVCluster (l : list N)
 | AVMPReach (afi safi : N) (nh : ip) (nl : list nlri)
 | AVMPUnreach (afi safi : N) (nl : list nlri)
-| AVUnknown (v : list N).
+| AVUnknown (v : list N)
+| AVNil.                                (* encoder input only: a typed nil pointer as Value *)
 
 Record attr := mkAttr {
   a_opt : bool; a_trans : bool; a_part : bool; a_ext : bool;
@@ -432,7 +433,7 @@ Definition decodeUpdate (fuel : nat) (o : options) (l : N) : M update_msg :=
 Definition notificationOK (code sub : N) : bool :=
   if 6 <? code then false
   else if code =? 1 then negb ((3 <? sub) || (sub =? 0))
-  else if code =? 2 then negb ((6 <? sub) || (sub =? 0) || (sub =? 5))
+  else if code =? 2 then negb (((6 <? sub) && negb (sub =? 11)) || (sub =? 0) || (sub =? 5))
   else if code =? 3 then negb ((11 <? sub) || (sub =? 0) || (sub =? 7))
   else if code =? 4 then sub =? 0
   else if code =? 5 then sub =? 0
@@ -571,6 +572,7 @@ Definition renderAttrVal (v : attrval) : list N :=
   | AVMPReach afi safi nh nl => 10 :: afi :: safi :: renderIP nh ++ renderNLRIs nl
   | AVMPUnreach afi safi nl => 11 :: afi :: safi :: renderNLRIs nl
   | AVUnknown b => 12 :: len b :: b
+  | AVNil => [13]
   end.
 
 Definition renderAttr (a : attr) : list N :=
